@@ -124,6 +124,39 @@ def run(ctx):
         ctx.inst(R, 'predicate:broadcast-checked', bad is None and nret >= 1, 'can_run_binary_op_in_place is true only when b.can_broadcast_to(a.shape())' if bad is None else
                  'can_run_binary_op_in_place %s: the in-place result would keep the in-place operand\'s shape while normal execution produces the broadcast shape' % bad, pf.loc())
 
+    # ---- the in-place path does the work the normal path does: if every Ok path of `run` goes through a kernel of the
+    # operator's module, so must every Ok path of `run_in_place`; a path that hands the in-place input back untouched
+    # (an 'optimisation' for a case the normal path still transforms) makes the two executions differ
+    R = 'C13.kernel-on-every-path'
+    BYPASS_OK = {
+        'Tile': 'returns the input itself only when every repeat is 1, where tile() copies the input unchanged',
+        'Identity': 'the identity: nothing to compute',
+    }
+    nk = 0
+    for o in ops:
+        if not o.overridden('run_in_place'):
+            continue
+        fr, fi = fb.fn(o.path('run')), fb.fn(o.path('run_in_place'))
+        if fr is None or fi is None or not fr.has_mir() or not fi.has_mir():
+            continue
+        mod = o.ty.rsplit('::', 1)[0] + '::'
+
+        def bypass(f):
+            ks = [c for c in f.calls() if (c.callee or '').startswith(mod) and ' as rten::operator::Operator>' not in (c.callee or '')]
+            errs = set(bb for (bb, j, kind, payload, pl) in f.defs().get(0, []) if kind == 'rv' and payload[0] == 'agg' and payload[3] == 'Err') | \
+                set(c.bb for c in f.calls() if 'from_residual' in (c.callee or ''))
+            r = f.reach_from(0, avoid=set(c.bb for c in ks) | errs)
+            return len(ks), bool(set(f.return_blocks()) & r)
+        (kr, br), (ki, bi) = bypass(fr), bypass(fi)
+        if kr == 0 or ki == 0:
+            continue      # the work is not in module-local kernels (delegating / closure-based operators): not judged
+        nk += 1
+        ok = br or not bi or o.short in BYPASS_OK
+        ctx.inst(R, o.short, ok, ('reviewed: ' + BYPASS_OK[o.short]) if (bi and not br and o.short in BYPASS_OK) else
+                 'run_in_place has no Ok path that skips the operator\'s kernels unless run has one too' if ok else
+                 'run_in_place can return Ok without calling any kernel of %s while every Ok path of run calls one: for that case in-place execution returns the input unchanged where normal execution transforms it' % mod.rstrip(':'), fi.loc())
+    ctx.floor(R, 'in-place operators whose work is in module-local kernels', nk, 40)
+
     # ---- delegation (TransformInputs)
     R = 'C13.delegation'
     ti = [o for o in ops if o.short == 'TransformInputs']
